@@ -789,9 +789,12 @@ def parse_tree_to_objgraph(
                     setattr(obj_attr, attr_name, value)
 
             elif op in ["list", "oneormore", "zeroormore"]:
+                # (the separator is recognized by its rule, not by the name
+                # "sep": a grammar may have a rule of that name)
+                sep_rule = getattr(node.rule, "sep", None)
                 for n in node:
                     # If the node is separator skip
-                    if n.rule_name != "sep":
+                    if sep_rule is None or n.rule is not sep_rule:
                         # Convert node to proper type
                         # Rule links will be resolved later
                         value = process_node(n)
